@@ -235,6 +235,11 @@ ProtocolExtension::read_done() {
 //     throw internal_error("ProtocolExtension::read_done '" + std::string(m_read, std::distance(m_read, m_readPos)) + "'");
   }
 
+  // Could not be processed yet (a reply is still pending): keep the complete message so that
+  // up_extension() processes it, and re-enables reads, once the pending message is written.
+  if (!result)
+    return false;
+
   delete [] m_read;
   m_read = NULL;
 
